@@ -2,7 +2,7 @@
    history observed on the implementation.  Oracle values that cannot be observed (the start position a
    round-robin rebuild draws, the draw of random.Select) are existentially quantified over their range. *)
 From Coq Require Import List NArith ZArith Bool Arith.
-From TarsV Require Import Base.Hex Select.Selectors.
+From TarsV Require Import Base.Hex Select.Selectors Select.Manager.
 Import ListNotations.
 Open Scope N_scope.
 
@@ -80,5 +80,18 @@ Definition bswl_check (c : bswl_case) : bool :=
   | BPanic _ => false
   end.
 
-Definition sel_case := (hist_case + bswl_case)%type.
-Definition sel_check (c : sel_case) : bool := match c with inl h => hist_check h | inr b => bswl_check b end.
+(* the endpoint manager over a history of registry answers (Select/Manager.v): the order in which the final list was
+   installed is read back from the implementation (hosts of activeEp) and must be an order of the answer the model's
+   manager is working from; the selections are then those of a fresh selector on that list in the model's weight mode *)
+Definition mgr_case := (kind * ptable * list (list ep) * list hexs * list N * list (option hexs))%type.
+Definition order_by (hosts : list hexs) (a : list ep) : list ep :=
+  flat_map (fun h => match find (fun e => bytes_eqb (host e) (unhex h)) a with Some e => [e] | None => [] end) hosts.
+Definition mgr_check (c : mgr_case) : bool :=
+  let '(k, t, answers, installed, codes, obs) := c in
+  let m := mgr_state (order_by installed) answers in
+  Nat.eqb (length (m_eps m)) (length (m_raw m)) && Nat.eqb (length installed) (length (m_raw m)) &&
+  check_ops t k (m_weighted m) sel0 [ORefresh (m_eps m); OSelRun codes obs].
+
+Definition sel_case := (hist_case + bswl_case + mgr_case)%type.
+Definition sel_check (c : sel_case) : bool :=
+  match c with inl (inl h) => hist_check h | inl (inr b) => bswl_check b | inr m => mgr_check m end.
